@@ -161,6 +161,50 @@ def _standin(rep, tier, seed, only_search=False):
             if only_search:
                 return
             break
+    # "under any vertex relabelling ... valid brackets": structured shapes (spiders, cycles with leaves) where the curvature-based
+    # tightening of the lower bound is reached, each against a relabelled sparse-matrix copy of the other, exact distance by branch and
+    # bound; and graphs beyond 128 vertices (where narrow integer types wrap) against a relabelled copy of themselves (distance 0)
+    from standins.mgh_oracle import mgh_bb, structured_shapes
+    import scipy.sparse as _sp
+    shapes2 = structured_shapes(7)
+    names = sorted(shapes2)
+    for a, b in [(a, b) for a in names for b in names]:
+        A, B = shapes2[a], shapes2[b]
+        perm = list(range(len(B)))
+        rng.shuffle(perm)
+        true2 = mgh_bb(A, B)
+        np.random.seed(rng.randint(0, 10 ** 6))
+        (lb, ub), _w = _gh(A.tolist(), _sp.csr_matrix(np.triu(relabel(B, perm))))
+        evals += 1
+        distinct.add(("shape", a, b))
+        if not (lb <= true2 + 1e-12 <= ub + 2e-12):
+            rep.violation("bounds (%r, %r) of gromov_hausdorff(%s as nested lists, relabelled %s as upper-triangular CSR) do not bracket the true distance %r" % (lb, ub, a, b, true2),
+                          "mgh:bracket:" + ("lower" if lb > true2 else "upper"), {"input": {"A": A.tolist(), "B": relabel(B, perm).tolist(), "shapes": [a, b]}, "observed": [lb, ub], "expected": true2})
+            if only_search:
+                return
+            break
+    for nv, spine in ([(130, 5), (140, 3)] if tier == "quick" else [(129, 4), (130, 5), (140, 3), (200, 6), (257, 5)]):
+        M = np.zeros((nv, nv), dtype=int)
+        for i in range(spine):
+            M[i, i + 1] = M[i + 1, i] = 1
+        for v in range(spine + 1, nv):
+            M[v % (spine + 1), v] = M[v, v % (spine + 1)] = 1
+        perm = list(range(nv))
+        rng.shuffle(perm)
+        evals += 1
+        try:
+            (lb, ub), _w = _gh(M, _sp.csr_matrix(relabel(M, perm)))
+        except Exception as ex:
+            rep.violation("gromov_hausdorff raised %r on a %d-vertex graph and a relabelled sparse copy of it" % (ex, nv), "mgh:large-graph-exception", {"input": {"generator": "caterpillar", "n": nv, "spine": spine}, "observed": repr(ex)})
+            if only_search:
+                return
+            break
+        if not (lb == 0 and ub >= 0):
+            rep.violation("a %d-vertex graph and a relabelled copy of it get bounds (%r, %r); the distance is 0, so the lower bound must be 0" % (nv, lb, ub), "mgh:isomorphic-lower-bound",
+                          {"input": {"generator": "caterpillar", "n": nv, "spine": spine, "perm_seeded": True}, "observed": [lb, ub], "expected": [0, ">=0"]})
+            if only_search:
+                return
+            break
     if not only_search:
         rep.bounded("representations / relabelling / collections / disconnected graphs", "%d random pairs of connected graphs on 2..5 vertices x 6 container formats, relabelings, 3-graph collections, disconnected unions" % n,
                     evals, len(distinct), "brackets vs exact mGH (all maps enumerated), identical lower bounds across formats, symmetric zero-diagonal matrices, largest-component fallback with a warning", samples)
